@@ -34,6 +34,7 @@ class TimeActiveDecorator(TriggerHandlerDecorator, AutoKwargsDecorator):
 
     hold_off: float | None
 
+    records_accepted = True
     last_trig_time: float = 0.0
 
     async def handle_dispatch(self, data: DispatchData) -> bool:
